@@ -65,6 +65,8 @@ def families(tier, seed):
                     name=f'real manager sweep [{be or "default"}] {fname} {extra} {sh.name}',
                     run=harness.sweep(cf.FUNCTIONS[fname], sh, dict(moore=True, plus_one=True, **extra), 'automaton', seed, ns, be),
                     label='bounded'))
+    from contracts import optdiff as _od
+    out.append(dict(name='same results with assert statements stripped (python -O), section C01', run=_od.family('C01'), label='bounded'))
     return out
 
 
